@@ -2,6 +2,7 @@
   C15 — the cycle limit is enforced exactly.
 -/
 import Miden.Lemmas.Exec
+import Miden.Lemmas.LimitMono
 import Miden.Model.Options
 namespace Miden.C15
 open Miden.Vm
@@ -30,6 +31,30 @@ theorem over_limit_never_succeeds (env : Env) (fuel : Nat) (b : Block) (vm vm' :
   have := (exec_within_limit env fuel b vm vm' h).1
   omega
 
+/-- **The limit is enforced exactly**: if a program completes from `vm` under some limit with final
+    clock `c`, then under ANY limit `m` it completes if and only if `c ≤ m`, and when it does the result
+    is the very same state - for every program (all block kinds, calls, syscalls, dyn), state and fuel. -/
+theorem limit_exact (env : Env) (fuel : Nat) (b : Block) (vm vm' : Vm) (m : Nat)
+    (h : exec env fuel b vm = .ok vm') :
+    ((∃ v, exec (env.withMax m) fuel b vm = .ok v) ↔ vm'.clk ≤ m) ∧
+    (∀ v, exec (env.withMax m) fuel b vm = .ok v → v = vm') := by
+  have key : ∀ v, exec (env.withMax m) fuel b vm = .ok v → v = vm' ∧ vm'.clk ≤ m := by
+    intro v hv
+    have hvm : v.clk ≤ m := (exec_prog hv).2.1
+    by_cases hle : m ≤ env.maxCycles
+    · -- lower the run under `m` back to the original limit: same state, hence `c ≤ m`
+      have hback := exec_limit_mono (env := env.withMax m) env.maxCycles hv (Nat.le_trans hvm hle)
+      have henv : (env.withMax m).withMax env.maxCycles = env := rfl
+      rw [henv, h] at hback
+      have e : vm' = v := Except.ok.inj hback
+      subst e
+      exact ⟨rfl, hvm⟩
+    · have hc : vm'.clk ≤ m := Nat.le_trans (exec_prog h).2.1 (by omega)
+      have hup := exec_limit_mono m h hc
+      rw [hup] at hv
+      exact ⟨(Except.ok.inj hv).symm, hc⟩
+  refine ⟨⟨fun ⟨v, hv⟩ => (key v hv).2, fun hc => ⟨vm', exec_limit_mono m h hc⟩⟩, fun v hv => (key v hv).1⟩
+
 /-- Option sets are refused exactly when the maximum is below the minimum trace length (64) or
     below the expected number of cycles. -/
 theorem options_refused_iff (m : Option Nat) (e : Nat) :
@@ -51,6 +76,11 @@ theorem options_accept (m : Option Nat) (e : Nat) (h1 : 64 ≤ m.getD U32_MAX)
   have b : ¬ m.getD U32_MAX < e := by omega
   simp only [a, b, if_false]
   exact ⟨_, rfl, by omega⟩
+
+-- `limit_exact` on a concrete program: 8 rows fit under 8 and 9, not under 7
+example : ((exec { maxCycles := 8 } 10 (.join (.span [.pad]) (.span [.incr])) { stack := List.replicate 16 0 }).toOption.map (·.clk),
+    (exec { maxCycles := 7 } 10 (.join (.span [.pad]) (.span [.incr])) { stack := List.replicate 16 0 }).toOption.map (·.clk))
+    = (some 8, none) := by decide
 
 -- Non-vacuity: a concrete state at the limit is refused, one below it is accepted.
 example : (∃ e, ({ stack := [], clk := 64 } : Vm).tick { maxCycles := 64 } .noop = .error e) := by
